@@ -109,7 +109,7 @@ def _child(argv):
                 state['seen'].add(fail.signature)
                 state['findings'].append(jsonio.enc(fail.case if fail.case is not None else case))
                 state['dirty'] = True
-        if state['dirty'] or state['executions'] % 25 == 0:
+        if state['dirty'] or state['executions'] % 10 == 0:
             flush()
 
     flush()
